@@ -17,7 +17,7 @@
 (*             "c<n>n<x>"     key of node x set by the path of commit n    *)
 (*   epoch secret id (ks): 0 for the creation epoch, else the commit id    *)
 (***************************************************************************)
-EXTENDS RatchetTree, TLC, Json
+EXTENDS RatchetTree, TLC, Json, Integers
 
 CONSTANTS
     Parties,        \* set of party names (strings)
@@ -34,6 +34,7 @@ CONSTANTS
     BurstSizes,                              \* sizes of application message bursts offered by Next
     PskIds,                                  \* external PSK identifiers
     PskValues,                               \* values a party may hold for a PSK id ("none" = does not hold it)
+    JitterChoices,                           \* max_epoch_jitter settings of the observer (99999 = not configured)
     Deviations                               \* named deviations of mls-rs from the properties that the model follows (known findings)
 
 VARIABLES
@@ -49,11 +50,12 @@ VARIABLES
     apps,       \* Seq(application message burst); id = index
     det,        \* [Parties -> set of commit ids] detached commits (CommitSecrets held by the application)
     pskStore,   \* [Parties -> [PskIds -> PskValues]] the application's PSK store of each party (constant per behaviour)
+    obs,        \* the external observer (ExternalGroup): [st, epoch, ks, tree, ext, cache, frozen]
     hist,       \* history of steps for replay (hidden by VIEW)
     haux        \* per step: projection of the acting party's repository and storage after the step
 
-vars == <<grp, zomb, kps, props, commits, winner, opt, repo, store, apps, det, pskStore, hist, haux>>
-view == <<grp, zomb, kps, props, commits, winner, opt, repo, store, apps, det, pskStore>>
+vars == <<grp, zomb, kps, props, commits, winner, opt, repo, store, apps, det, pskStore, obs, hist, haux>>
+view == <<grp, zomb, kps, props, commits, winner, opt, repo, store, apps, det, pskStore, obs>>
 
 Str(i) == ToString(i)
 KpLeafKey(i) == "kpL" \o Str(i)
@@ -86,6 +88,7 @@ ItemOfProp(j) ==
       [] pr.kind = "rpsk" -> [kind |-> "rpsk", ref |-> j, by |-> pr.byLeaf, epoch |-> pr.pe]
       [] pr.kind = "gce" -> [kind |-> "gce", ref |-> j, by |-> pr.byLeaf, ver |-> pr.ver]
       [] pr.kind = "reinit" -> [kind |-> "reinit", ref |-> j, by |-> pr.byLeaf]
+      [] pr.kind = "custom" -> [kind |-> "custom", ref |-> j, by |-> pr.byLeaf, ver |-> pr.ver]
 
 OfKind(items, k) == FilterSeq(items, LAMBDA it : it.kind = k)
 
@@ -154,6 +157,8 @@ ApplyAdds(mode, adds, i, acc) ==
 \*   [kind |-> "rpsk", ref, by, epoch]    resumption PSK of a past epoch: valid iff `who` still retains it
 \*   [kind |-> "gce",  ref, by, ver]      new group context extensions; at most one per commit
 \*   [kind |-> "reinit", ref, by]         re-initialisation; must be the only proposal
+\*   [kind |-> "custom", ref, by, ver]    application-defined proposal of a type every member supports and that the
+\*                                        rules do not list as path-requiring: always valid, no effect on the group
 HoldsPsk(who, id) == pskStore[who][id] # "none"
 
 RetainsEpoch(who, e) ==
@@ -165,7 +170,10 @@ RetainsEpoch(who, e) ==
 
 \* a receiver resolves resumption PSKs only when it derives the key schedule (after the self-removal test),
 \* not while validating the proposal list
-PskValid(mode, who, it) == IF it.kind = "psk" THEN HoldsPsk(who, it.id) ELSE (mode = "recv" \/ RetainsEpoch(who, it.epoch))
+\* (mode "obs": an external observer has no secrets; PSKs are "always found" for it)
+PskValid(mode, who, it) ==
+    IF mode = "obs" THEN TRUE
+    ELSE IF it.kind = "psk" THEN HoldsPsk(who, it.id) ELSE (mode = "recv" \/ RetainsEpoch(who, it.epoch))
 
 RECURSIVE FilterPsks(_, _, _, _, _)
 FilterPsks(mode, who, psks, i, acc) ==   \* acc = [kept, err]
@@ -208,6 +216,7 @@ ApplyProposals(mode, who, tree, committer, items0) ==
         gc == FilterGces(mode, OfKind(remNotCommitter, "gce"), 1, [kept |-> <<>>, err |-> ""])
         \* what is left of the bundle after the PSK and GCE rules, in bundle order per type
         afterRules == SelectSeq(remNotCommitter, LAMBDA it : it.kind \in {"add", "rem", "upd", "reinit"}) \o pk.kept \o gc.kept
+                      \o OfKind(remNotCommitter, "custom")
         ri == FilterReinit(mode, afterRules)
         its == ri.items
         rems == OfKind(its, "rem")
@@ -216,7 +225,7 @@ ApplyProposals(mode, who, tree, committer, items0) ==
         r3 == ApplyAdds(mode, OfKind(its, "add"), 1, [tree |-> r2.tree, kept |-> <<>>, err |-> "", added |-> <<>>, start |-> 0])
         \* bundle order: adds, removes, updates, psks, gce, reinit
         applied == r3.kept \o r1.kept \o r2.kept \o SelectSeq(its, LAMBDA it : it.kind \in {"psk", "rpsk"})
-                   \o OfKind(its, "gce") \o OfKind(its, "reinit")
+                   \o OfKind(its, "gce") \o OfKind(its, "reinit") \o OfKind(its, "custom")
     IN IF bad1 THEN Res(FALSE, "rule:update-by-committer", tree, <<>>, <<>>, {}, {})
        ELSE IF bad2 THEN Res(FALSE, "rule:remove-committer", tree, <<>>, <<>>, {}, {})
        ELSE IF pk.err # "" THEN Res(FALSE, pk.err, tree, <<>>, <<>>, {}, {})
@@ -229,6 +238,7 @@ ApplyProposals(mode, who, tree, committer, items0) ==
                 {it.target : it \in SeqSet(r1.kept)}, r2.leaves)
 
 \* path_update_required (proposal_filter.rs): nothing at all, or an update / remove / GCE
+\* (a custom proposal neither requires a path by itself nor lifts the requirement of the others)
 PathNeeded(applied) == applied = <<>> \/ \E i \in 1..Len(applied) : applied[i].kind \in {"upd", "rem", "gce"}
 
 PsksOf(applied) == SelectSeq(applied, LAMBDA it : it.kind \in {"psk", "rpsk"})
@@ -355,7 +365,7 @@ RepoFollows(p) ==
             ELSE repo
 
 Init ==
-    /\ \E pr \in PathRequiredChoices, en \in EncChoices : opt = [pathReq |-> pr, enc |-> en]
+    /\ \E pr \in PathRequiredChoices, en \in EncChoices, j \in JitterChoices : opt = [pathReq |-> pr, enc |-> en, jit |-> j]
     /\ grp = [p \in Parties |->
                 IF p = Creator
                 THEN [st |-> "member", epoch |-> 0, ks |-> 0, leaf |-> 0,
@@ -370,6 +380,7 @@ Init ==
     /\ apps = <<>>
     /\ det = [p \in Parties |-> {}]
     /\ pskStore \in [Parties -> [PskIds -> PskValues]]
+    /\ obs = [st |-> "off"]
     /\ hist = <<>>
     /\ haux = <<>>
 
@@ -423,7 +434,9 @@ ProposeRemove(p, l) ==
 
 ProposeUpdate(p) ==
     /\ HasGroup(p)
-    /\ (AllowConflicts \/ grp[p].pendUpd = {})
+    \* at most one by-reference update per leaf and epoch secret (also across a reload of the proposer, which forgets
+    \* its own pending update): which of two the committer keeps depends on the hash-map order of its cache
+    /\ (AllowConflicts \/ (grp[p].pendUpd = {} /\ ~\E j \in 1..Len(props) : props[j].kind = "upd" /\ props[j].by = p /\ props[j].ks = grp[p].ks))
     /\ Propose(p, [kind |-> "upd", kp |-> 0, target |-> 0], [x |-> 0])
 
 ProposePsk(p, id) ==
@@ -439,6 +452,10 @@ ProposeGce(p) ==
     \* at most one by-reference GCE per epoch: which of two the committer keeps depends on hash-map order
     /\ ~\E j \in 1..Len(props) : props[j].kind = "gce" /\ props[j].ks = grp[p].ks
     /\ Propose(p, [kind |-> "gce", kp |-> 0, target |-> 0, ver |-> Len(props) + 1], [ver |-> Len(props) + 1])
+
+ProposeCustom(p) ==
+    /\ "custom" \in Features /\ HasGroup(p)
+    /\ Propose(p, [kind |-> "custom", kp |-> 0, target |-> 0, ver |-> Len(props) + 1], [ver |-> Len(props) + 1])
 
 ProposeReinit(p) ==
     /\ "reinit" \in Features /\ HasGroup(p)
@@ -474,6 +491,7 @@ ByValueItems(g) ==
                                         \cup {[kind |-> "rpsk", ref |-> 0, by |-> g.leaf, epoch |-> e] : e \in 0..g.epoch} ELSE {})
     \cup (IF "gce" \in Features THEN {[kind |-> "gce", ref |-> 0, by |-> g.leaf, ver |-> 100 + Len(commits)]} ELSE {})
     \cup (IF "reinit" \in Features THEN {[kind |-> "reinit", ref |-> 0, by |-> g.leaf]} ELSE {})
+    \cup (IF "custom" \in Features THEN {[kind |-> "custom", ref |-> 0, by |-> g.leaf, ver |-> 100 + Len(commits)]} ELSE {})
 
 ByValueSeqs(g) ==
     {<<>>} \cup (IF ByValueMax >= 1 THEN {<<a>> : a \in ByValueItems(g)} ELSE {})
@@ -849,7 +867,81 @@ ApplyDetached(p, n) ==
     /\ UNCHANGED <<zomb, kps, props, commits, winner, opt, store, apps>>
 
 
-Next ==
+-----------------------------------------------------------------------------
+(* External observer (mls-rs/src/external_client/group.rs): follows the     *)
+(* public handshake traffic without secrets.  It shares process_commit with *)
+(* the members minus decapsulation, PSK resolution and confirmation-tag     *)
+(* verification; ciphertexts are passed through if their epoch lies in the  *)
+(* window [max(0, epoch - jitter), ...] (C16: saturating, never a panic).   *)
+ObsStep(a, args, res) ==
+    hist' = Append(hist, [a |-> a, p |-> "observer", args |-> args, res |-> res, out |-> [x |-> 0],
+                          post |-> IF obs'.st = "off" THEN [st |-> "none"]
+                                   ELSE [st |-> "observer", epoch |-> obs'.epoch, ks |-> obs'.ks, ext |-> obs'.ext,
+                                         tree |-> [i \in 1..Len(obs'.tree) |-> ProjNode(obs'.tree[i])],
+                                         cache |-> SetToSortedSeq(obs'.cache)]])
+
+ObsRest == UNCHANGED <<grp, zomb, kps, props, commits, winner, opt, repo, store, apps, det>>
+
+\* observe_group(GroupInfo of member p, its tree)
+ObsJoin(p) ==
+    /\ "observer" \in Features /\ HasGroup(p)
+    /\ obs' = [st |-> "on", epoch |-> grp[p].epoch, ks |-> grp[p].ks, tree |-> grp[p].tree, ext |-> grp[p].ext,
+               cache |-> {}, frozen |-> grp[p].frozen]
+    /\ ObsStep("ObsJoin", [from |-> p], "ok") /\ ObsRest
+
+NoJitter == 99999      \* max_epoch_jitter not configured
+InWindow(e) == opt.jit = NoJitter \/ e >= (IF obs.epoch >= opt.jit THEN obs.epoch - opt.jit ELSE 0)
+
+ObsDeliverProposal(j) ==
+    LET pr == props[j] IN
+    /\ "observer" \in Features /\ obs.st = "on" /\ j \in 1..Len(props) /\ j \notin obs.cache
+    /\ IF pr.epoch # obs.epoch \/ (~opt.enc /\ pr.ks # obs.ks)
+       THEN /\ UNCHANGED obs /\ ObsStep("ObsDeliverProposal", [prop |-> j], "err:epoch")
+       ELSE IF opt.enc
+       THEN /\ UNCHANGED obs /\ ObsStep("ObsDeliverProposal", [prop |-> j], "ok:ciphertext")
+       ELSE /\ obs' = [obs EXCEPT !.cache = @ \cup {j}]
+            /\ ObsStep("ObsDeliverProposal", [prop |-> j], "ok")
+    /\ ObsRest
+
+ObsDeliverCommit(n) ==
+    LET c == commits[n]
+        refs == {c.items[i].ref : i \in {i \in 1..Len(c.items) : IsByRef(c.items[i])}}
+        ar == ApplyProposals("obs", Creator, obs.tree, c.byLeaf, c.items)
+        old == Node(ar.tree, 2 * c.byLeaf)
+        newLeaf == MkLeaf(CommitLeafKey(n), old.who, old.cv, "commit")
+        tree1 == IF c.path THEN ApplyPath(ar.tree, c.byLeaf, newLeaf, c.pathKeys) ELSE ar.tree
+        args == [commit |-> n]
+    IN
+    /\ "observer" \in Features /\ obs.st = "on" /\ n \in 1..Len(commits)
+    /\ (IsWinner(n) \/ obs.epoch > c.baseEpoch)
+    /\ IF c.baseEpoch # obs.epoch \/ (~opt.enc /\ c.baseKs # obs.ks)
+       THEN /\ UNCHANGED obs /\ ObsStep("ObsDeliverCommit", args, "err:epoch")
+       ELSE IF opt.enc
+       THEN /\ UNCHANGED obs /\ ObsStep("ObsDeliverCommit", args, "ok:ciphertext")
+       ELSE IF obs.frozen
+       THEN /\ UNCHANGED obs /\ ObsStep("ObsDeliverCommit", args, "err:frozen")
+       ELSE IF ~(refs \subseteq obs.cache)
+       THEN /\ UNCHANGED obs /\ ObsStep("ObsDeliverCommit", args, "err:proposal-not-found")
+       ELSE IF ~ar.ok
+       THEN /\ UNCHANGED obs /\ ObsStep("ObsDeliverCommit", args, "err:" \o ar.err)
+       ELSE /\ obs' = [obs EXCEPT !.epoch = @ + 1, !.ks = n, !.tree = tree1, !.ext = c.newExt, !.cache = {}, !.frozen = c.reinit]
+            /\ ObsStep("ObsDeliverCommit", args, "ok")
+    /\ ObsRest
+
+\* an application message (always a PrivateMessage) is let through as ciphertext iff its epoch is inside the window
+ObsDeliverApp(a, gen) ==
+    /\ "observer" \in Features /\ "apps" \in Features /\ obs.st = "on" /\ a \in 1..Len(apps) /\ gen \in apps[a].lo..apps[a].hi
+    /\ UNCHANGED obs
+    /\ ObsStep("ObsDeliverApp", [app |-> a, gen |-> gen], IF InWindow(apps[a].epoch) THEN "ok:ciphertext" ELSE "err:epoch")
+    /\ ObsRest
+
+\* snapshot, serialise, restore: nothing changes
+ObsSnapshotRestore ==
+    /\ "observer" \in Features /\ obs.st = "on"
+    /\ UNCHANGED obs /\ ObsStep("ObsSnapshotRestore", [x |-> 0], "ok") /\ ObsRest
+
+
+MemberNext ==
     \/ \E p \in Parties : GenKeyPackage(p)
     \/ \E p \in Parties : \E i \in 1..Len(kps) : ProposeAdd(p, i)
     \/ \E p \in Parties : \E l \in 0..7 : ProposeRemove(p, l)
@@ -859,6 +951,7 @@ Next ==
     \/ \E p \in Parties : \E e \in 0..MaxEpoch : ProposeResumptionPsk(p, e)
     \/ \E p \in Parties : ProposeGce(p)
     \/ \E p \in Parties : ProposeReinit(p)
+    \/ \E p \in Parties : ProposeCustom(p)
     \/ \E q \in Parties : \E j \in 1..Len(props) : DeliverProposal(q, j)
     \/ \E p \in Parties : HasGroup(p) /\ \E bv \in ByValueSeqs(grp[p]) : \E dt \in BOOLEAN : Commit(p, bv, dt)
     \/ \E p \in Parties : ClearPending(p)
@@ -873,6 +966,15 @@ Next ==
     \/ \E p \in Parties : Load(p)
     \/ \E p \in Parties : \E n \in det[p] : ApplyDetached(p, n)
 
+ObsNext ==
+    \/ \E p \in Parties : ObsJoin(p)
+    \/ \E j \in 1..Len(props) : ObsDeliverProposal(j)
+    \/ \E n \in 1..Len(commits) : ObsDeliverCommit(n)
+    \/ \E a \in 1..Len(apps) : \E gen \in apps[a].lo..apps[a].hi : ObsDeliverApp(a, gen)
+    \/ ObsSnapshotRestore
+
+Next == (MemberNext /\ UNCHANGED obs) \/ ObsNext
+
 \* the acting party's repository / storage after the step (needs the primed variables, hence a
 \* conjunct evaluated after Next)
 AuxOf(p) ==
@@ -882,7 +984,8 @@ AuxOf(p) ==
      snap |-> IF store'[p].snap.st = "member" THEN store'[p].snap.epoch ELSE 0,
      hasSnap |-> store'[p].snap.st = "member"]
 
-Logged(A) == A /\ UNCHANGED pskStore /\ haux' = Append(haux, AuxOf(hist'[Len(hist')].p))
+Logged(A) == A /\ UNCHANGED pskStore
+             /\ haux' = Append(haux, IF hist'[Len(hist')].p \in Parties THEN AuxOf(hist'[Len(hist')].p) ELSE [x |-> 0])
 
 Spec == Init /\ [][Logged(Next)]_vars
 
@@ -895,6 +998,18 @@ Agreement ==
     \A p, q \in Parties : (HasGroup(p) /\ HasGroup(q) /\ grp[p].ks = grp[q].ks) =>
         /\ grp[p].epoch = grp[q].epoch
         /\ grp[p].tree = grp[q].tree
+
+RECURSIVE ChainLenOf(_)
+ChainLenOf(ks) == IF ks = 0 THEN 0 ELSE 1 + ChainLenOf(commits[ks].baseKs)
+
+\* C16: the observer holds the tree, extensions and epoch of every member that is in the same epoch of the same
+\* history, its epoch is the length of the commit chain behind it, and its tree is structurally valid
+ObserverTracks ==
+    obs.st = "on" =>
+        /\ \A p \in Parties : (HasGroup(p) /\ grp[p].ks = obs.ks) =>
+                /\ grp[p].epoch = obs.epoch /\ grp[p].tree = obs.tree /\ grp[p].ext = obs.ext
+        /\ obs.epoch = ChainLenOf(obs.ks)
+        /\ StructurallyValid(obs.tree)
 
 \* C01: a member's epoch is the length of the chosen commit chain behind its secret
 RECURSIVE ChainLen(_)
